@@ -130,6 +130,7 @@ func cmdSweep(args []string) {
 	only := fs.String("only", "", "only functions whose key has this prefix")
 	timeout := fs.Int("t", 5, "solver timeout (s)")
 	lock := fs.String("lock", "", "write fully discharged function keys to this file (appending lines 'C04 <key>')")
+	partlock := fs.String("partlock", "", "write 'C04-part <key> <kinds...>' lines for partly discharged functions: the obligation kinds all of whose obligations discharge")
 	fs.Parse(args)
 	t0 := time.Now()
 	eng, err := LoadEngine(*repo, strings.Split(*pkgs, ","), nil)
@@ -153,6 +154,7 @@ func cmdSweep(args []string) {
 	Discharge(all, SolveOpts{TimeoutS: *timeout, Dir: "/tmp/govc-sweep"})
 	okFns, unsup := 0, 0
 	var lockLines []string
+	var partLines []string
 	for _, res := range results {
 		if res.Unsupported != "" || res.ContractErr != "" {
 			unsup++
@@ -169,7 +171,43 @@ func cmdSweep(args []string) {
 		if bad == 0 {
 			okFns++
 			lockLines = append(lockLines, "C04 "+res.Key)
+		} else {
+			kindOf := func(name string) string {
+				parts := strings.SplitN(name, ":", 4)
+				if len(parts) < 3 {
+					return ""
+				}
+				if parts[0] == "safe" {
+					return ":" + parts[2] + ":"
+				}
+				return ""
+			}
+			okKind, badKind := map[string]int{}, map[string]bool{}
+			for _, o := range res.Obligs {
+				k := kindOf(o.Name)
+				if k == "" {
+					continue
+				}
+				if o.Status == "proved" {
+					okKind[k]++
+				} else {
+					badKind[k] = true
+				}
+			}
+			var ks []string
+			for k := range okKind {
+				if !badKind[k] {
+					ks = append(ks, k)
+				}
+			}
+			sort.Strings(ks)
+			if len(ks) > 0 && res.Cover != nil {
+				partLines = append(partLines, "C04-part "+res.Key+" "+strings.Join(ks, " "))
+			}
 		}
+	}
+	if *partlock != "" {
+		os.WriteFile(*partlock, []byte(strings.Join(partLines, "\n")+"\n"), 0o644)
 	}
 	fmt.Printf("functions: %d total, %d fully discharged, %d outside the subset; %.1fs\n", len(results), okFns, unsup, time.Since(t0).Seconds())
 	if *lock != "" {
